@@ -368,6 +368,12 @@ impl PhysicalOperator for MemoryTableExec {
         // Use rayon to determine the number of CPU cores for parallel execution
         // For small tables, use fewer partitions to avoid overhead
         let total_rows: usize = self.batches.iter().map(|b| b.num_rows()).sum();
+        #[cfg(feature = "verif")]
+        if let Some(min_rows) = crate::verif_hooks::MEM_PARTITION_MIN_ROWS.get() {
+            if total_rows as u64 >= min_rows && !self.batches.is_empty() {
+                return std::cmp::min(rayon::current_num_threads(), self.batches.len());
+            }
+        }
         if total_rows < 1000 {
             1 // Small table, single partition
         } else {
